@@ -45,6 +45,7 @@ pub struct ZkirRun {
     pub prover: Option<MockProver<F>>,
     pub k: u32,
     pub synth_err: String,
+    pub keyview: J,
 }
 
 pub fn run(path: &str, k_override: Option<u32>) -> (ZkirRun, J) {
@@ -55,7 +56,7 @@ pub fn run(path: &str, k_override: Option<u32>) -> (ZkirRun, J) {
         Ok(r) => r,
         Err(e) => {
             return (
-                ZkirRun { offcircuit_ok: false, offcircuit_err: format!("from_instructions: {e:?}"), instance: vec![], prover: None, k: 0, synth_err: String::new() },
+                ZkirRun { offcircuit_ok: false, offcircuit_err: format!("from_instructions: {e:?}"), instance: vec![], prover: None, k: 0, synth_err: String::new(), keyview: J::Null },
                 json!({"family": "zkir", "rejected_at": "from_instructions", "error": format!("{e:?}")}),
             )
         }
@@ -75,5 +76,10 @@ pub fn run(path: &str, k_override: Option<u32>) -> (ZkirRun, J) {
     let extra = json!({"family": "zkir", "k": k, "offcircuit_ok": off_ok, "offcircuit_err": off_err,
         "synth_err": synth_err,
         "published": instance_vals.iter().map(|(v, t)| format!("{v:?}:{t:?}")).collect::<Vec<_>>()});
-    (ZkirRun { offcircuit_ok: off_ok, offcircuit_err: off_err, instance, prover, k, synth_err }, extra)
+    let keyview = if std::env::args().any(|a| a == "keygen=1") {
+        crate::keycmp::keygen_view(k, &circuit).unwrap_or_else(|e| json!({"error": format!("{e:?}")}))
+    } else {
+        J::Null
+    };
+    (ZkirRun { offcircuit_ok: off_ok, offcircuit_err: off_err, instance, prover, k, synth_err, keyview }, extra)
 }
